@@ -113,9 +113,14 @@ func c27FsmTruncations(enc []byte, minOK int) {
 	zzsym.Assert(cmd == nil, "rejected command returns a value")
 }
 
-// c27FsmShape is one shared length (0..2, thorough 0..3) for every variable-length field of a
+// c27FsmShape is one shared length (0..1, thorough 0..3) for every variable-length field of a
 // truncation entry, so that the number of explored prefixes stays linear in the encoding size.
-func c27FsmShape() int { return c27FsmLen("shape") }
+func c27FsmShape() int {
+	if zzsym.Thorough() {
+		return zzsym.Choice("shape", 4)
+	}
+	return zzsym.Choice("shape", 2)
+}
 
 func c27FsmU64s(name string, n int) []uint64 {
 	if n == 0 {
@@ -126,6 +131,16 @@ func c27FsmU64s(name string, n int) []uint64 {
 		out[i] = zzsym.U64(name)
 	}
 	return out
+}
+
+// c27FsmAllPrefixesRejected: for commands whose last encoded field is required, every strict prefix
+// must be rejected with an error (and must not panic).
+func c27FsmAllPrefixesRejected(enc []byte) {
+	cut := c27FsmCut(len(enc))
+	cmd, err := decodeCommand(enc[:cut])
+	zzsym.Reach("every-prefix-rejected")
+	zzsym.Assert(err != nil, "strict prefix of a command with a required last field accepted")
+	zzsym.Assert(cmd == nil, "rejected prefix returns a value")
 }
 
 // ---- User / Device ----
@@ -267,11 +282,14 @@ func c27FsmRuntimeMeta(idLen, replicas, isr, tokenLen int) metadb.ChannelRuntime
 // the decoded value is compared with the canonical form of the input. DirectoryGeneration is not a
 // field of this command's wire format and is not compared.
 func Harness_C27_FsmRuntimeMeta() {
-	isrMax, tokenMax := 1, 1
+	isrMax := 1
+	strLen := c27FsmLen("str.len") // ChannelID and WriteFenceToken share one length in quick
+	tokenLen := strLen
 	if zzsym.Thorough() {
-		isrMax, tokenMax = 3, 3
+		isrMax = 3
+		tokenLen = c27FsmLen("token.len")
 	}
-	in := c27FsmRuntimeMeta(c27FsmLen("channelID.len"), c27FsmLen("replicas.len"), zzsym.Choice("isr.len", isrMax+1), zzsym.Choice("token.len", tokenMax+1))
+	in := c27FsmRuntimeMeta(strLen, c27FsmLen("replicas.len"), zzsym.Choice("isr.len", isrMax+1), tokenLen)
 	want := metadb.NormalizeChannelRuntimeMeta(in)
 	cmd, err := decodeCommand(EncodeUpsertChannelRuntimeMetaCommand(in))
 	zzsym.Reach("upsert-runtime-meta")
@@ -325,10 +343,10 @@ func Harness_C27_FsmRuntimeMetaTruncated() {
 		zzsym.Assert(err == nil, "delete runtime meta command rejected")
 		c, ok := cmd.(*deleteChannelRuntimeMetaCmd)
 		zzsym.Assert(ok && len(c.channelID) == s, "delete runtime meta command decodes to another type")
-		c27FsmTruncations(enc, len(enc))
+		c27FsmAllPrefixesRejected(enc)
 	default:
 		enc := EncodeAdvanceChannelRetentionThroughSeqCommand(c27FsmRetentionAdvance(s))
-		c27FsmTruncations(enc, len(enc))
+		c27FsmAllPrefixesRejected(enc)
 	}
 }
 
@@ -450,7 +468,7 @@ func Harness_C27_FsmSubscribersTruncated() {
 		zzsym.Assume(uids[0] != uids[1])
 	}
 	enc := EncodeAddSubscribersCommand(zzsym.String("channelID", s), zzsym.I64("channelType"), uids, zzsym.U64("version"))
-	c27FsmTruncations(enc, len(enc))
+	c27FsmAllPrefixesRejected(enc)
 }
 
 // ---- Mutation results ----
@@ -516,4 +534,378 @@ func Harness_C27_FsmMutationResultsGarbage() {
 		zzsym.Reach("subscriber-result-garbage-accepted")
 		zzsym.Assert(len(data) >= 7, "accepted subscriber result shorter than magic + two varints")
 	}
+}
+
+// ---- User channel memberships ----
+
+func c27FsmMembership(uidLen, idLen int) metadb.UserChannelMembership {
+	return metadb.UserChannelMembership{UID: zzsym.String("uid", uidLen), ChannelID: zzsym.String("channelID", idLen), ChannelType: zzsym.I64("channelType"),
+		JoinSeq: zzsym.U64("joinSeq"), ReadSeq: zzsym.U64("readSeq"), DeletedToSeq: zzsym.U64("deletedToSeq"), ActivatedAt: zzsym.I64("activatedAt"),
+		Tombstone: zzsym.Bool("tombstone"), TombstoneAt: zzsym.I64("tombstoneAt"), SourceVersion: zzsym.U64("sourceVersion"), UpdatedAt: zzsym.I64("updatedAt")}
+}
+
+func c27FsmSameMembership(a, b metadb.UserChannelMembership) bool {
+	return a.UID == b.UID && a.ChannelID == b.ChannelID && a.ChannelType == b.ChannelType && a.JoinSeq == b.JoinSeq && a.ReadSeq == b.ReadSeq &&
+		a.DeletedToSeq == b.DeletedToSeq && a.ActivatedAt == b.ActivatedAt && a.Tombstone == b.Tombstone && a.TombstoneAt == b.TombstoneAt &&
+		a.SourceVersion == b.SourceVersion && a.UpdatedAt == b.UpdatedAt
+}
+
+func c27FsmEncodeMemberships(kind int, ms []metadb.UserChannelMembership) []byte {
+	switch kind {
+	case 0:
+		return EncodeUpsertUserChannelMembershipsCommand(ms)
+	case 1:
+		return EncodeDeleteUserChannelMembershipsCommand(ms)
+	case 2:
+		return EncodeAdvanceUserChannelMembershipReadSeqCommand(ms)
+	case 3:
+		return EncodeHideUserChannelMembershipCommand(ms)
+	}
+	return EncodeActivateUserChannelMembershipCommand(ms)
+}
+
+func c27FsmDecodedMemberships(kind int, cmd command) ([]metadb.UserChannelMembership, bool) {
+	switch kind {
+	case 0:
+		c, ok := cmd.(*upsertUserChannelMembershipsCmd)
+		if !ok {
+			return nil, false
+		}
+		return c.memberships, true
+	case 1:
+		c, ok := cmd.(*deleteUserChannelMembershipsCmd)
+		if !ok {
+			return nil, false
+		}
+		return c.memberships, true
+	case 2:
+		c, ok := cmd.(*advanceUserChannelMembershipReadSeqCmd)
+		if !ok {
+			return nil, false
+		}
+		return c.memberships, true
+	case 3:
+		c, ok := cmd.(*hideUserChannelMembershipCmd)
+		if !ok {
+			return nil, false
+		}
+		return c.memberships, true
+	}
+	c, ok := cmd.(*activateUserChannelMembershipCmd)
+	if !ok {
+		return nil, false
+	}
+	return c.memberships, true
+}
+
+// Harness_C27_FsmMemberships: the five user-channel-membership batch commands, 0..2 entries (an empty
+// batch is rejected by every decoder).
+func Harness_C27_FsmMemberships() {
+	kind := zzsym.Choice("kind", 5)
+	n := zzsym.Choice("entries", 3)
+	var ms []metadb.UserChannelMembership
+	for i := 0; i < n; i++ {
+		s := c27FsmLen("entry.shape") // UID and ChannelID of one entry share a length
+		ms = append(ms, c27FsmMembership(s, s))
+	}
+	cmd, err := decodeCommand(c27FsmEncodeMemberships(kind, ms))
+	if n == 0 {
+		zzsym.Reach("empty-membership-batch")
+		zzsym.Assert(err != nil && cmd == nil, "empty membership batch accepted")
+		return
+	}
+	zzsym.Reach("membership-batch")
+	zzsym.Assert(err == nil, "membership batch rejected")
+	got, ok := c27FsmDecodedMemberships(kind, cmd)
+	zzsym.Assert(ok, "membership batch decodes to another command type")
+	zzsym.Assert(len(got) == n, "membership batch length differs after round trip")
+	for i := range got {
+		zzsym.Assert(c27FsmSameMembership(got[i], ms[i]), "membership entry differs after round trip")
+	}
+	zzsym.Observe("memberships", uint64(len(got)), got[0].JoinSeq, uint64(got[0].UpdatedAt), zzsym.B2U(got[0].Tombstone))
+}
+
+// Harness_C27_FsmMembershipsTruncated: strict prefixes of membership batches (upsert: state fields
+// required; delete: state fields optional; CMD upsert): one entry: every strict prefix is rejected (for
+// delete: accepted only at a field boundary after UID, ChannelID, ChannelType - there is none before the
+// end of the single entry TLV); two entries: accepted exactly at the boundary after the first entry.
+// The Tombstone flags are fixed per case (they only select the encoded 0/1 value).
+func Harness_C27_FsmMembershipsTruncated() {
+	s := c27FsmShape()
+	switch zzsym.Choice("case", 4) {
+	case 0:
+		m := c27FsmMembership(s, s)
+		m.Tombstone = false
+		c27FsmAllPrefixesRejected(c27FsmEncodeMemberships(0, []metadb.UserChannelMembership{m}))
+	case 1:
+		m := c27FsmMembership(s, s)
+		m.Tombstone = true
+		c27FsmAllPrefixesRejected(c27FsmEncodeMemberships(1, []metadb.UserChannelMembership{m}))
+	case 2:
+		m1, m2 := c27FsmMembership(s, s), c27FsmMembership(s, s)
+		m1.Tombstone, m2.Tombstone = true, false
+		enc := c27FsmEncodeMemberships(0, []metadb.UserChannelMembership{m1, m2})
+		c27FsmTruncations(enc, c27FsmBoundaryAfter(enc, 1))
+	default:
+		m := c27FsmCMDMembership(s, s)
+		m.Tombstone = true
+		c27FsmAllPrefixesRejected(c27FsmEncodeCMDMemberships(0, []metadb.UserCMDChannelMembership{m}))
+	}
+}
+
+// ---- User CMD channel memberships ----
+
+func c27FsmCMDMembership(uidLen, idLen int) metadb.UserCMDChannelMembership {
+	return metadb.UserCMDChannelMembership{UID: zzsym.String("uid", uidLen), CommandChannelID: zzsym.String("channelID", idLen), ChannelType: zzsym.I64("channelType"),
+		StartSeq: zzsym.U64("startSeq"), AckSeq: zzsym.U64("ackSeq"), Tombstone: zzsym.Bool("tombstone"), TombstoneAt: zzsym.I64("tombstoneAt"), UpdatedAt: zzsym.I64("updatedAt")}
+}
+
+func c27FsmEncodeCMDMemberships(kind int, ms []metadb.UserCMDChannelMembership) []byte {
+	switch kind {
+	case 0:
+		return EncodeUpsertUserCMDChannelMembershipsCommand(ms)
+	case 1:
+		return EncodeAdvanceUserCMDChannelMembershipAcksCommand(ms)
+	}
+	return EncodeTombstoneUserCMDChannelMembershipsCommand(ms)
+}
+
+// Harness_C27_FsmCMDMemberships: the three CMD-channel-membership batch commands, 0..2 entries.
+func Harness_C27_FsmCMDMemberships() {
+	kind := zzsym.Choice("kind", 3)
+	n := zzsym.Choice("entries", 3)
+	var ms []metadb.UserCMDChannelMembership
+	for i := 0; i < n; i++ {
+		s := c27FsmLen("entry.shape") // UID and CommandChannelID of one entry share a length
+		ms = append(ms, c27FsmCMDMembership(s, s))
+	}
+	cmd, err := decodeCommand(c27FsmEncodeCMDMemberships(kind, ms))
+	if n == 0 {
+		zzsym.Reach("empty-cmd-membership-batch")
+		zzsym.Assert(err != nil && cmd == nil, "empty CMD membership batch accepted")
+		return
+	}
+	zzsym.Reach("cmd-membership-batch")
+	zzsym.Assert(err == nil, "CMD membership batch rejected")
+	var got []metadb.UserCMDChannelMembership
+	switch kind {
+	case 0:
+		c, ok := cmd.(*upsertUserCMDChannelMembershipsCmd)
+		zzsym.Assert(ok, "upsert CMD membership batch decodes to another type")
+		got = c.memberships
+	case 1:
+		c, ok := cmd.(*advanceUserCMDChannelMembershipAcksCmd)
+		zzsym.Assert(ok, "ack CMD membership batch decodes to another type")
+		got = c.memberships
+	default:
+		c, ok := cmd.(*tombstoneUserCMDChannelMembershipsCmd)
+		zzsym.Assert(ok, "tombstone CMD membership batch decodes to another type")
+		got = c.memberships
+	}
+	zzsym.Assert(len(got) == n, "CMD membership batch length differs after round trip")
+	for i := range got {
+		a, b := got[i], ms[i]
+		zzsym.Assert(a.UID == b.UID && a.CommandChannelID == b.CommandChannelID && a.ChannelType == b.ChannelType && a.StartSeq == b.StartSeq &&
+			a.AckSeq == b.AckSeq && a.Tombstone == b.Tombstone && a.TombstoneAt == b.TombstoneAt && a.UpdatedAt == b.UpdatedAt, "CMD membership entry differs after round trip")
+	}
+	zzsym.Observe("cmdmemberships", uint64(len(got)), got[0].StartSeq, got[0].AckSeq)
+}
+
+// ---- Channel latest ----
+
+func c27FsmLatest(idLen, fromLen, noLen, payloadLen int) metadb.ChannelLatest {
+	l := metadb.ChannelLatest{ChannelID: zzsym.String("channelID", idLen), ChannelType: zzsym.I64("channelType"), LastMessageID: zzsym.U64("lastMessageID"),
+		LastMessageSeq: zzsym.U64("lastMessageSeq"), LastAt: zzsym.I64("lastAt"), FromUID: zzsym.String("fromUID", fromLen), ClientMsgNo: zzsym.String("clientMsgNo", noLen),
+		UpdatedAt: zzsym.I64("updatedAt")}
+	if payloadLen > 0 {
+		l.Payload = zzsym.Bytes("payload", payloadLen)
+	}
+	return l
+}
+
+func c27FsmSameLatest(a, b metadb.ChannelLatest) bool {
+	return a.ChannelID == b.ChannelID && a.ChannelType == b.ChannelType && a.LastMessageID == b.LastMessageID && a.LastMessageSeq == b.LastMessageSeq &&
+		a.LastAt == b.LastAt && a.FromUID == b.FromUID && a.ClientMsgNo == b.ClientMsgNo && c27FsmSameBytes(a.Payload, b.Payload) && a.UpdatedAt == b.UpdatedAt
+}
+
+// Harness_C27_FsmChannelLatest: single channel-latest upsert round trip.
+func Harness_C27_FsmChannelLatest() {
+	in := c27FsmLatest(c27FsmLen("channelID.len"), c27FsmLen("fromUID.len"), c27FsmLen("clientMsgNo.len"), c27FsmLen("payload.len"))
+	enc := EncodeUpsertChannelLatestCommand(in)
+	cmd, err := decodeCommand(enc)
+	zzsym.Reach("latest")
+	zzsym.Assert(err == nil, "channel latest command rejected")
+	c, ok := cmd.(*upsertChannelLatestCmd)
+	zzsym.Assert(ok, "channel latest command decodes to another type")
+	zzsym.Assert(c27FsmSameLatest(c.latest, in), "channel latest differs after round trip")
+	zzsym.Observe("latest", c.latest.LastMessageID, c.latest.LastMessageSeq, uint64(len(c.latest.Payload)))
+}
+
+// Harness_C27_FsmChannelLatestBatch: batch of 0..2 (hash slot, latest) items; each item uses one
+// shared length for its four variable-length fields.
+func Harness_C27_FsmChannelLatestBatch() {
+	n := zzsym.Choice("items", 3)
+	var items []ChannelLatestBatchItem
+	for i := 0; i < n; i++ {
+		s := c27FsmLen("item.shape")
+		items = append(items, ChannelLatestBatchItem{HashSlot: zzsym.U16("hashSlot"), Latest: c27FsmLatest(s, s, s, s)})
+	}
+	cmd, err := decodeCommand(EncodeUpsertChannelLatestBatchCommand(items))
+	if n == 0 {
+		zzsym.Reach("empty-latest-batch")
+		zzsym.Assert(err != nil && cmd == nil, "empty channel latest batch accepted")
+		return
+	}
+	zzsym.Reach("latest-batch")
+	zzsym.Assert(err == nil, "channel latest batch rejected")
+	c, ok := cmd.(*upsertChannelLatestBatchCmd)
+	zzsym.Assert(ok, "channel latest batch decodes to another type")
+	zzsym.Assert(len(c.items) == n, "channel latest batch length differs after round trip")
+	for i := range c.items {
+		zzsym.Assert(c.items[i].HashSlot == items[i].HashSlot, "channel latest batch hash slot differs after round trip")
+		zzsym.Assert(c27FsmSameLatest(c.items[i].Latest, items[i].Latest), "channel latest batch row differs after round trip")
+	}
+	zzsym.Observe("latestbatch", uint64(len(c.items)), uint64(c.items[0].HashSlot))
+}
+
+// Harness_C27_FsmChannelLatestTruncated: strict prefixes of a single latest command (all rejected) and
+// of 1..2 item batches (accepted exactly after a complete item).
+func Harness_C27_FsmChannelLatestTruncated() {
+	s := c27FsmShape()
+	if zzsym.Bool("batch") {
+		n := 1 + zzsym.Choice("items", 2)
+		var items []ChannelLatestBatchItem
+		for i := 0; i < n; i++ {
+			items = append(items, ChannelLatestBatchItem{HashSlot: zzsym.U16("hashSlot"), Latest: c27FsmLatest(s, s, s, s)})
+		}
+		enc := EncodeUpsertChannelLatestBatchCommand(items)
+		c27FsmTruncations(enc, c27FsmBoundaryAfter(enc, 1))
+		return
+	}
+	c27FsmAllPrefixesRejected(EncodeUpsertChannelLatestCommand(c27FsmLatest(s, s, s, s)))
+}
+
+// ---- arbitrary bytes ----
+
+func c27FsmGarbage(types []uint8, quick, thorough int) {
+	max := quick
+	if zzsym.Thorough() {
+		max = thorough
+	}
+	n := zzsym.Choice("len", max+1)
+	data := zzsym.Bytes("data", n)
+	k := zzsym.Choice("type", len(types))
+	if n >= 2 {
+		// the decoder under test; the version byte stays arbitrary
+		zzsym.Assume(data[1] == types[k])
+	}
+	cmd, err := decodeCommand(data)
+	if err != nil {
+		zzsym.Reach("garbage-rejected")
+		zzsym.Assert(cmd == nil, "rejected bytes return a command")
+		return
+	}
+	zzsym.Reach("garbage-accepted")
+	zzsym.Assert(cmd != nil && n >= 2 && data[0] == commandVersion, "accepted bytes without a valid header")
+	// whatever decodes must be a TLV sequence that the generic walker accepts too
+	hashSlots, herr := DecodeCommandHashSlots(data, 7)
+	zzsym.Assert(herr == nil && len(hashSlots) >= 1, "accepted command has no hash slots")
+}
+
+// Harness_C27_FsmGarbage: arbitrary bytes into representative decoders of command.go: user (no required
+// fields), delete-runtime-meta (required fields), channel-latest batch (two nesting levels), noop (pure TLV
+// walk); thorough adds every other decoder registered from command.go except the subscriber pair.
+func Harness_C27_FsmGarbage() {
+	if zzsym.Thorough() {
+		c27FsmGarbage([]uint8{cmdTypeUpsertUser, cmdTypeDeleteChannelRuntimeMeta, cmdTypeUpsertChannelLatestBatch, cmdTypeNoop,
+			cmdTypeCreateUser, cmdTypeUpsertDevice, cmdTypeUpsertChannel, cmdTypeCreateChannel, cmdTypePatchChannelBusinessFlags, cmdTypeDeleteChannel,
+			cmdTypeUpsertChannelRuntimeMeta, cmdTypeAdvanceChannelRetention, cmdTypeUpsertUserChannelMemberships, cmdTypeDeleteUserChannelMemberships,
+			cmdTypeAdvanceUserChannelMembershipReadSeq, cmdTypeHideUserChannelMembership, cmdTypeActivateUserChannelMembership,
+			cmdTypeUpsertUserCMDChannelMemberships, cmdTypeAdvanceUserCMDChannelMembershipAcks, cmdTypeTombstoneUserCMDChannelMemberships,
+			cmdTypeUpsertChannelLatest}, 16, 28)
+		return
+	}
+	c27FsmGarbage([]uint8{cmdTypeUpsertUser, cmdTypeDeleteChannelRuntimeMeta, cmdTypeUpsertChannelLatestBatch, cmdTypeNoop}, 16, 28)
+}
+
+// Harness_C27_FsmGarbageSubscribers: the add/remove subscribers decoders on (a) arbitrary short bytes
+// (a complete subscriber command needs 25 bytes, so these are all rejected) and (b) a well-framed command
+// whose uid-set value is arbitrary bytes (NULs, empty members, unsorted, duplicates): it decodes, the
+// members are the NUL-separated pieces, nothing panics. The uid set is split on NUL with symbolic content,
+// which is expensive: short inputs.
+func Harness_C27_FsmGarbageSubscribers() {
+	cmdType := cmdTypeAddSubscribers
+	if zzsym.Bool("remove") {
+		cmdType = cmdTypeRemoveSubscribers
+	}
+	if zzsym.Bool("framed") {
+		max := 3
+		if zzsym.Thorough() {
+			max = 5
+		}
+		raw := zzsym.Bytes("uidset", zzsym.Choice("uidset.len", max+1))
+		data := []byte{commandVersion, cmdType}
+		data = appendStringTLVField(data, tagSubscriberChannelID, "c")
+		data = appendInt64TLVField(data, tagSubscriberChannelType, zzsym.I64("channelType"))
+		data = appendBytesTLVField(data, tagSubscriberUIDs, raw)
+		cmd, err := decodeCommand(data)
+		zzsym.Reach("subscribers-arbitrary-uidset")
+		zzsym.Assert(err == nil && cmd != nil, "well-framed subscriber command with arbitrary uid bytes rejected")
+		var uids []string
+		if c, ok := cmd.(*addSubscribersCmd); ok {
+			uids = c.uids
+		} else {
+			uids = cmd.(*removeSubscribersCmd).uids
+		}
+		nul := 0
+		for _, b := range raw {
+			if b == 0 {
+				nul++
+			}
+		}
+		total := 0
+		for _, u := range uids {
+			total += len(u)
+		}
+		if len(raw) == 0 {
+			zzsym.Assert(len(uids) == 0, "empty uid set decodes to members")
+		} else {
+			zzsym.Assert(len(uids) == nul+1 && total+nul == len(raw), "uid set members are not the NUL-separated pieces")
+		}
+		return
+	}
+	max := 11
+	if zzsym.Thorough() {
+		max = 16
+	}
+	n := zzsym.Choice("len", max+1)
+	data := zzsym.Bytes("data", n)
+	if n >= 2 {
+		zzsym.Assume(data[1] == cmdType)
+	}
+	cmd, err := decodeCommand(data)
+	zzsym.Reach("subscribers-short-garbage")
+	zzsym.Assert(err != nil && cmd == nil, "subscriber command shorter than its required fields accepted")
+}
+
+// Harness_C27_FsmReadTLV: the TLV primitive on arbitrary bytes at full width of the 32-bit length.
+func Harness_C27_FsmReadTLV() {
+	max := 16
+	if zzsym.Thorough() {
+		max = 28
+	}
+	n := zzsym.Choice("len", max+1)
+	data := zzsym.Bytes("data", n)
+	tag, value, used, err := readTLV(data)
+	if err != nil {
+		zzsym.Reach("tlv-rejected")
+		zzsym.Assert(value == nil && used == 0 && tag == 0, "rejected TLV returns values")
+		zzsym.Assert(n < tlvOverhead || uint64(data[1])<<24|uint64(data[2])<<16|uint64(data[3])<<8|uint64(data[4]) > uint64(n-tlvOverhead), "well-formed TLV rejected")
+		return
+	}
+	zzsym.Reach("tlv-accepted")
+	zzsym.Assert(n >= tlvOverhead && tag == data[0], "accepted TLV tag")
+	zzsym.Assert(used == tlvOverhead+len(value) && used <= n, "accepted TLV consumes more than the input")
+	zzsym.Assert(uint64(len(value)) == uint64(data[1])<<24|uint64(data[2])<<16|uint64(data[3])<<8|uint64(data[4]), "accepted TLV value length differs from the declared length")
+	zzsym.Observe("tlv", uint64(tag), uint64(used))
 }
